@@ -25,6 +25,7 @@ def _run(ctx, ncases, nrays):
     wb, sp = models.random_tree(rng, nbody=int(rng.integers(1, 5)), joint_types=("free", "hinge"), geom_types=["sphere", "capsule", "box", "ellipsoid", "cylinder"], spread=0.5,
                                 static_geoms=int(rng.integers(0, 3)), sites=False)
     xml = models.wrap(wb, floor=rng.random() < 0.7)
+    xml = xml.replace("<worldbody>", '<worldbody><camera name="c34cam" pos="0 -3 1" xyaxes="1 0 0 0 0 1"/>', 1)
     # random groups
     xml = xml.replace('type="sphere"', f'type="sphere" group="{int(rng.integers(0, 6))}"')
     mjm = mujoco.MjModel.from_xml_string(xml)
@@ -34,14 +35,45 @@ def _run(ctx, ncases, nrays):
     m = mjw.put_model(mjm)
     d = mjw.put_data(mjm, mjd, nworld=1)
     mjw.kinematics(m, d)
+    # the BVH-accelerated path of ray() (render context): same answer as the brute-force path
+    rc = None
+    try:
+      rc = mjw.create_render_context(mjm, nworld=1, cam_res=(4, 4), render_rgb=False, render_depth=True, render_seg=True, enabled_geom_groups=[0, 1, 2, 3, 4, 5])
+      mjw.refit_bvh(m, d, rc)
+      # the leaf box of every convex geom must contain the geom: exact extents along the world axes from support functions
+      from harness.props.c04 import _support
+      lo, up, ids = rc.lower.numpy(), rc.upper.numpy(), rc.enabled_geom_ids.numpy()
+      for li, g in enumerate(ids.tolist()):
+        for k in range(3):
+          e = np.zeros(3); e[k] = 1.0
+          hi_, lo_ = _support(mjm, mjd, g, e), _support(mjm, mjd, g, -e)
+          if hi_ is None or lo_ is None:
+            continue
+          acc.evals += 1
+          if up[li][k] < hi_ - 1e-4 or lo[li][k] > -lo_ + 1e-4:
+            acc.find(f"BVH leaf box of geom {g} (type {int(mjm.geom_type[g])}) does not contain the geom along axis {k}: box [{lo[li][k]:.5g}, {up[li][k]:.5g}], geom [{-lo_:.5g}, {hi_:.5g}]",
+                     "bvh._compute_bvh_bounds", "leaf-box-too-small", xml=xml, geom=g, qpos=mjd.qpos.tolist())
+            break
+      acc.hit("bvh-bounds-checked")
+    except Exception as e:
+      acc.hit("bvh-context-unavailable:" + type(e).__name__)
+      rc = None
     flg_static = bool(rng.random() < 0.7)
     bodyexclude = int(rng.integers(-1, mjm.nbody))
     gg = None
     if rng.random() < 0.5:
       gg = rng.integers(0, 2, size=6).astype(np.int32)
     for r in range(nrays):
-      mode = int(rng.integers(0, 3))
-      if mode == 0:   # from outside toward a geom
+      mode = int(rng.integers(0, 4))
+      if mode == 3:   # toward an extremity of an elongated geom (away from its centre: where wrong bounds / axes show)
+        elong = [k for k in range(mjm.ngeom) if mjm.geom_type[k] in (3, 5)]    # capsules and cylinders first
+        g = int(rng.choice(elong)) if elong and rng.random() < 0.8 else int(rng.integers(mjm.ngeom))
+        R = mjd.geom_xmat[g].reshape(3, 3)
+        ext = float(mjm.geom_size[g][1] if mjm.geom_type[g] in (3, 5) else mjm.geom_size[g][2])   # capsule/cylinder half length, else z half size
+        tgt = mjd.geom_xpos[g] + R[:, 2] * ext * float(rng.choice([-0.9, 0.9]))
+        pnt = tgt + rng.normal(size=3) * 1.5
+        vec = tgt - pnt
+      elif mode == 0:   # from outside toward a geom
         tgt = mjd.geom_xpos[int(rng.integers(mjm.ngeom))] + rng.normal(size=3) * 0.05
         pnt = tgt + rng.normal(size=3) * 1.5
         vec = tgt - pnt
@@ -69,6 +101,17 @@ def _run(ctx, ncases, nrays):
         break
       acc.evals += 1
       dg, gg_id, nn = float(dist.numpy()[0, 0]), int(gid.numpy()[0, 0]), nrm.numpy()[0, 0]
+      if rc is not None:
+        try:
+          db, gb, nb = mjw.ray(m, d, p, v, ggv, flg_static, bodyexclude, rc=rc)
+          dbv, gbv = float(db.numpy()[0, 0]), int(gb.numpy()[0, 0])
+          acc.evals += 1
+          if (dbv >= 0) != (dg >= 0) or (dg >= 0 and abs(dbv - dg) > 1e-4 * (1 + abs(dg))):
+            acc.find(f"BVH ray path gives distance {dbv:.6g} (geom {gbv}), brute force {dg:.6g} (geom {gg_id})", "ray.ray (BVH) / bvh bounds", "bvh-vs-bruteforce", xml=xml, pnt=pnt.tolist(),
+                     vec=vec.tolist(), flg_static=flg_static, bodyexclude=bodyexclude, geomgroup=None if gg is None else gg.tolist(), qpos=mjd.qpos.tolist())
+          acc.hit("bvh-path")
+        except TypeError:
+          rc = None
       hit_ref = dist_ref >= 0
       if hit_ref:
         acc.distinct.add((c, r))
@@ -79,20 +122,20 @@ def _run(ctx, ncases, nrays):
       elif hit_ref:
         if abs(np.linalg.norm(nn) - 1) > 1e-3:
           acc.find(f"hit normal is not unit ({nn.tolist()})", "ray.ray", "normal", xml=xml, pnt=pnt.tolist(), vec=vec.tolist())
-        acc.hit(["outside", "inside", "random"][mode])
+        acc.hit(["outside", "inside", "random", "extremity"][mode])
     acc.sample({"ngeom": int(mjm.ngeom), "flg_static": flg_static, "bodyexclude": bodyexclude, "geomgroup": None if gg is None else gg.tolist()})
   return acc
 
 
 RULE = ("random scenes of free/hinged bodies + static geoms + optional floor with sphere/capsule/box/ellipsoid/cylinder geoms and random groups; rays aimed at geoms from outside, started inside "
-        "geoms, and random; random geomgroup / flg_static / bodyexclude; distance and hit/miss vs mujoco.mj_ray, unit normal; distinct = rays that hit")
+        "geoms, and random; random geomgroup / flg_static / bodyexclude; distance and hit/miss vs mujoco.mj_ray, unit normal, and the BVH-accelerated path (render context) vs the brute-force path; distinct = rays that hit")
 
 
 def correspondence(ctx):
   from harness.corr import func_corr
   fc = func_corr.run(["ray._ray_quad", "ray.ray_sphere", "ray.ray_plane", "ray.ray_ellipsoid", "ray.ray_box", "ray.ray_capsule", "ray.ray_cylinder", "ray._ray_map", "ray._ray_triangle"],
                      ncases=192 if ctx.thorough else 48, seed=ctx.seed)
-  acc = _run(ctx, 24 if ctx.thorough else 5, 30 if ctx.thorough else 12)
+  acc = _run(ctx, 24 if ctx.thorough else 6, 40 if ctx.thorough else 24)
   return result(acc, RULE, fc=fc)
 
 
